@@ -497,7 +497,7 @@ func main() {
 	rng := vh.NewRng(a.Seed)
 	rep := vh.NewReport(a, "PRNG programs: 1..4 functions pNf0..pNf3 (fi calls only fj, j>i: call depth <= 4, +1 for closures / closures called back from a compiled function), "+
 		"bodies of 2..25 statements from {emit, arithmetic, call, if/else, for (1..3 iterations, nesting <= 2), switch, block with local, closure definition+call, apply(closure), early return, \"break\" / _ = \"break\" breakpoints with probability 0/3/6/10%}; "+
-		"every function ends with `return` (fall-off-the-end is finding C19-A, replayed from corpus/C19); programs whose single-step trace exceeds 1500 statements are discarded; "+
+		"1/4 of the non-root functions have no result and fall off the end of their body, 1/5 of the programs are started as a top-level statement list (call depth 0; there `finish` = continue, so the documented-rule oracle is applied only to scripts without finish); programs whose single-step trace exceeds 1500 statements are discarded; "+
 		"per program 8 scripts over {step,next,finish,continue} (4 of shape (s|n|f)* c*, 3 unrestricted, 1 unrestricted started with ir.Eval instead of ir.Debug), script exhausted => continue; "+
 		"one evaluated case = one (program, script) run; non-trivial when the run had >= 2 debugger callbacks and the trace has >= 2 call depths; distinct by SHA-256 of program text + script")
 	nProg := 70
@@ -638,7 +638,7 @@ func main() {
 					}
 				}
 			}
-			if ok && noResume(sc.s) && sc.debug {
+			if ok && noResume(sc.s) && sc.debug && !(p.Top && strings.Contains(sc.s, "f")) {
 				want := docStops(tr, sc.s, 'c', D)
 				if fmt.Sprint(st) != fmt.Sprint(want) {
 					fail(key, "stops differ from the documented rule (script never resumes stepping after continue)", in, st, want)
